@@ -113,7 +113,7 @@ func VerifyUnit(prog *Program, cs *ContractSet, uc *UnitContract) *UnitResult {
 		res.Stmts = stmtCount(fu.Body)
 	} else {
 		var err error
-		stmts, err = findRegion(x, fu, uc.From, uc.To)
+		stmts, err = findRegion(x, fu, uc)
 		if err != nil {
 			res.Errors = append(res.Errors, fmt.Sprintf("contract cannot bind region %s: %v", uc.ID(), err))
 			return res
@@ -412,11 +412,44 @@ func (x *Exec) checkFrame(final *State, sp *SpecCtx, fu *FuncUnit) {
 func normWS(s string) string { return strings.Join(strings.Fields(s), " ") }
 
 // findRegion locates the statement range [from..to] (matched by normalised source-text prefix) in one statement list.
-func findRegion(x *Exec, fu *FuncUnit, from, to string) ([]ast.Stmt, error) {
+func findRegion(x *Exec, fu *FuncUnit, uc *UnitContract) ([]ast.Stmt, error) {
 	var found [][]ast.Stmt
-	from, to = normWS(from), normWS(to)
+	from, to := normWS(uc.From), normWS(uc.To)
 	try := func(list []ast.Stmt) {
 		for i, s := range list {
+			if uc.FromExcl || uc.ToExcl {
+				// exclusive anchors: the region's own first/last statements may be reordered, renamed or rewritten
+				// without unbinding the contract
+				if x.anchorMatches(s, from) {
+					lo := i
+					if uc.FromExcl {
+						lo = i + 1
+					}
+					for j := lo; j < len(list); j++ {
+						if to == "$end" || x.anchorMatches(list[j], to) {
+							hi := j + 1
+							if to == "$end" {
+								hi = len(list)
+							} else if uc.ToExcl {
+								hi = j
+							}
+							if hi > lo {
+								if !uc.FromExcl {
+									lo = x.extendBack(list, lo, hi-1)
+								}
+								found = append(found, list[lo:hi])
+							}
+							break
+						}
+					}
+				}
+				continue
+			}
+			if to == "$end" && x.anchorMatches(s, from) {
+				// up to the end of the enclosing statement list, whatever its last statement is
+				found = append(found, list[x.extendBack(list, i, len(list)-1):])
+				continue
+			}
 			if x.anchorMatches(s, from) {
 				for j := i; j < len(list); j++ {
 					if x.anchorMatches(list[j], to) {
@@ -427,7 +460,26 @@ func findRegion(x *Exec, fu *FuncUnit, from, to string) ([]ast.Stmt, error) {
 			}
 		}
 	}
-	ast.Inspect(fu.Body, func(n ast.Node) bool {
+	var root ast.Node = fu.Body
+	if uc.Within != "" {
+		var outer []ast.Stmt
+		w := normWS(uc.Within)
+		ast.Inspect(fu.Body, func(n ast.Node) bool {
+			if fl, ok := n.(*ast.FuncLit); ok && fl.Body != fu.Body {
+				return false
+			}
+			if s, ok := n.(ast.Stmt); ok && x.anchorMatches(s, w) {
+				outer = append(outer, s)
+				return false
+			}
+			return true
+		})
+		if len(outer) != 1 {
+			return nil, fmt.Errorf("within-anchor %q matches %d statements in %s", uc.Within, len(outer), fu.Name)
+		}
+		root = outer[0]
+	}
+	ast.Inspect(root, func(n ast.Node) bool {
 		switch b := n.(type) {
 		case *ast.FuncLit:
 			if b.Body != fu.Body {
